@@ -120,7 +120,7 @@ def command_events(ctx):
     jobs, evs = [], []
 
     def add(argv, cls, shell=False):
-        jobs.append({"argv": ["/bin/sh", "-c", argv] if shell else argv, "cwd": d})
+        jobs.append({"argv": ["/bin/bash" if shell == "bash" else "/bin/sh", "-c", argv] if shell else argv, "cwd": d})
         evs.append({"op": "cmd", "argv": argv if shell else " ".join(os.path.basename(a) for a in argv), "cls": cls, "hung": 0})
     for inp, tag in ((small, "small"), (big, "big")):
         for extra, name in (([], "fasta"), (["--fastq-output"], "fastq"), (["--json-output"], "json"), (["-Z"], "gz")):
@@ -131,6 +131,22 @@ def command_events(ctx):
         # stdout on a full device
         add("%s %s > /dev/full" % (conv, inp), "stdout-devfull/%s/fasta" % tag, shell=True)
         add("%s --json-output %s > /dev/full" % (conv, inp), "stdout-devfull/%s/json" % tag, shell=True)
+    # the output must exceed what a pipe holds (64 KiB by default, 1 MiB at most) even once compressed: random sequences
+    import random
+    rnd = random.Random(ctx.seed)
+    huge = os.path.join(d, "huge.fa")
+    with open(huge, "w") as f:
+        for i in range(40000):
+            f.write(">h%d\n%s\n" % (i, "".join(rnd.choice("acgt") for _ in range(150))))
+    # a closed pipe: (a) an output opened by name that is a pipe whose reader takes 100 bytes and leaves (EPIPE comes
+    # back from write(2)); (b) standard output piped into such a reader (the run time turns EPIPE on fd 1 into SIGPIPE)
+    for extra, name in (([], "fasta"), (["--fastq-output"], "fastq"), (["--json-output"], "json"), (["-Z"], "gz")):
+        for cpu in ("1", "4"):
+            fifo = "fifo_%s_%s" % (name, cpu)
+            add("rm -f %s; mkfifo %s; head -c 100 < %s > /dev/null & %s --max-cpu %s %s -o %s %s; rc=$?; wait; exit $rc"
+                % (fifo, fifo, fifo, conv, cpu, " ".join(extra), fifo, huge), "closedpipe-named/huge/%s" % name, shell=True)
+        add("%s %s %s | head -c 100 > /dev/null; exit ${PIPESTATUS[0]}" % (conv, " ".join(extra), huge), "closedpipe-stdout/huge/%s" % name, shell="bash")
+    add("%s --ids --sequence %s | head -c 100 > /dev/null; exit ${PIPESTATUS[0]}" % (csv, huge), "closedpipe-stdout/huge/csv", shell="bash")
     res = ctx.run_many(jobs, timeout=120)
     for e, r in zip(evs, res):
         e["rc"] = r["rc"]
